@@ -118,6 +118,7 @@ type ccfg struct {
 	noDel      bool          // no user Delegate configured
 	tcpTimeout time.Duration // 0 = default
 	altRep     bool          // allow-list in the other in-memory form (altNets)
+	ringToo    bool          // with secretKey: a keyring holding the key is configured as well; the application keeps that handle
 	secretKey  bool          // the key is given as Config.SecretKey (Create builds the keyring)
 }
 
@@ -188,8 +189,13 @@ func newCnode(c ccfg) (*cnode, error) {
 		conf.Keyring = kr
 		keyring = kr
 	}
+	var appRing *ml.Keyring
 	if c.key != nil && c.secretKey {
 		conf.SecretKey = c.key
+		if c.ringToo {
+			appRing, _ = ml.NewKeyring(nil, c.key)
+			conf.Keyring = appRing
+		}
 	} else if c.key != nil {
 		kr, err := ml.NewKeyring(c.keys, c.key)
 		if err != nil {
@@ -206,6 +212,9 @@ func newCnode(c ccfg) (*cnode, error) {
 	ev.take()
 	if c.secretKey {
 		keyring = conf.Keyring
+		if appRing != nil {
+			keyring = appRing // the handle the application supplied is the one it rotates
+		}
 	}
 	return &cnode{m: m, tr: tr, del: del, ev: ev, cfg: c, kr: keyring}, nil
 }
